@@ -17,6 +17,7 @@ from ruamel.yaml.comments import (
 from ruamel.yaml.scalarbool import ScalarBoolean
 
 from yamlpath.common import Anchors, Nodes, Parsers
+from yamlpath.enums import YAMLValueFormats
 from yamlpath.wrappers import ConsolePrinter, NodeCoords
 from yamlpath.merger.exceptions import MergeException
 from yamlpath.merger.enums import (
@@ -860,9 +861,13 @@ class Merger:
                 self.data = rhs
             elif node_coord is not None and node_coord.path is not None:
                 # Only this target; insert_at may match other nodes, too
-                lhs_proc.set_value(YAMLPath(node_coord.path), rhs)
+                lhs_proc.set_value(
+                    YAMLPath(node_coord.path), rhs,
+                    value_format=YAMLValueFormats.from_node(rhs))
             else:
-                lhs_proc.set_value(insert_at, rhs)
+                lhs_proc.set_value(
+                    insert_at, rhs,
+                    value_format=YAMLValueFormats.from_node(rhs))
             merge_performed = True
         return merge_performed
 
